@@ -1,8 +1,8 @@
 package env
 
 import (
-	gethCommon "github.com/ethereum/go-ethereum/common"
 	"fmt"
+	gethCommon "github.com/ethereum/go-ethereum/common"
 	"math/big"
 	"sort"
 	"strings"
